@@ -435,12 +435,91 @@ def units(tier, seed):
     n = len(alphabet(world))
     for first in range(n):
       out.append((world, first))
+  out.append(('threads', 2, 1, None))
+  out.append(('threads', 2, 2, 1))
+  out.append(('threads', 3, 1, 1))
   return out
+
+
+# ------------------------------------------------------------ thread clause
+def thread_program(cfg, k):
+  """Edits its own configuration; returns the sequence ids in program order."""
+  ids = []
+
+  def last_id():
+    return max(e.sequence_id for lst in cfg.__argument_history__.values()
+               for e in lst)
+
+  cfg.x = f't{k}-1'
+  ids.append(last_id())
+  fdl.add_tag(cfg, 'y', N.TagA)
+  ids.append(last_id())
+  del cfg.x
+  ids.append(last_id())
+  cfg.y = f't{k}-2'
+  ids.append(last_id())
+  return ids
+
+
+def run_threads(nthreads, bound, res, cap=None):
+  from mc import sched  # pylint: disable=g-import-not-at-top
+  stats = {'n': 0}
+  vectors = set()
+
+  def make_bodies():
+    history.set_tracking(enabled=True)
+    cfgs = [fdl.Config(N.node) for _ in range(nthreads)]
+    bodies = [(lambda c=c, k=k: (thread_program(c, k), c))
+              for k, c in enumerate(cfgs)]
+    return bodies
+
+  def on_execution(ex, key):
+    stats['n'] += 1
+    res.transitions += 1
+    order, switches = key
+    case = {'threads': nthreads, 'order': list(order),
+            'switches': {str(k): v for k, v in switches.items()}}
+    all_ids = []
+    for tid, r in enumerate(ex.results):
+      if r[0] != 'ok':
+        res.violation('C16/threads/thread-raised', f'{case}: {r}', case)
+        return
+      ids, cfg = r[1]
+      if ids != sorted(ids) or len(set(ids)) != len(ids):
+        res.violation('C16/threads/ids-not-increasing-in-program-order',
+                      f'{case}: thread {tid}: {ids}', case)
+        return
+      for key_, lst in cfg.__argument_history__.items():
+        all_ids += [e.sequence_id for e in lst]
+      vals = [e for e in cfg.__argument_history__['y']
+              if e.kind == history.ChangeKind.NEW_VALUE]
+      if not vals or vals[-1].new_value != cfg.__arguments__.get('y'):
+        res.violation('C16/threads/history-does-not-end-with-current-value',
+                      f'{case}: thread {tid}', case)
+        return
+    if len(set(all_ids)) != len(all_ids):
+      res.violation('C16/threads/sequence-ids-not-unique-across-threads',
+                    f'{case}: {sorted(all_ids)}', case)
+      return
+    vectors.add(tuple(tuple(x - min(r[1][0]) for x in r[1][0])
+                      for r in ex.results))
+
+  r = sched.explore(make_bodies, bound, on_execution, occurrence_cap=cap)
+  res.states += len(vectors)
+  res.nontrivial += stats['n']
+  res.evals += stats['n']
+  res.outcomes[f'threads{nthreads}:bound{bound}:cap{cap}'] += stats['n']
+  res.sample({'threads': nthreads, 'preemption_bound': bound,
+              'schedules': stats['n'], 'points': r['max_points']})
 
 
 def run_unit(unit, tier, seed):
   b = bounds(tier)
   res = core.Result()
+  if unit[0] == 'threads':
+    run_threads(unit[1], unit[2], res, unit[3])
+    history.set_tracking(enabled=True)
+    return res
   world, first = unit
   alpha = alphabet(world)
   # BFS below the given first operation (the root state is covered by first=0)
@@ -474,6 +553,9 @@ def run_unit(unit, tier, seed):
 
 def replay(case):
   res = core.Result()
+  if 'threads' in case:
+    run_threads(case['threads'], 2, res)
+    return res
   world = case['world']
   alpha = alphabet(world)
   idx = []
